@@ -49,6 +49,9 @@ def base_scenarios(tier):
                         if not T and nsamp == 2 and pre in ("gt10",) and k == 5:
                             continue
                         yield {"k": k, "design": design, "hp": list(hp), "nsamp": nsamp, "pre": pre, "seed": seed}
+                        if k == 4 and nsamp == 1 and pre in ("none", "foreignPS"):
+                            # last variant is an insertion; adds the operations phase --only-snvs (both tags)
+                            yield {"k": k, "design": design, "hp": list(hp), "nsamp": nsamp, "pre": pre, "seed": seed, "indel": True}
 
 
 def build_base(sc, d):
@@ -59,7 +62,7 @@ def build_base(sc, d):
     length = 60 + 40 * k + 100
     seq = synth.make_reference(seed, length)
     samples = ["S1"] + (["S2"] if sc["nsamp"] == 2 else [])
-    vs = [synth.make_variant(seq, p, "SNV") for p in pos]
+    vs = [synth.make_variant(seq, p, "INS" if (sc.get("indel") and i == k - 1) else "SNV", 2 if (sc.get("indel") and i == k - 1) else 1) for i, p in enumerate(pos)]
     haps = [[a, 1 - a] for a in sc["hp"]]
     vcf = synth.VcfText(samples, contigs=[("chrA", length)], formats=["GT", "PS", "HP"] if sc["pre"].startswith("foreign") or sc["nsamp"] == 2 else ["GT"])
     pre = sc["pre"]
@@ -85,7 +88,12 @@ def build_base(sc, d):
             recs.append((hp_, b, [synth.other_base(b)], [{"GT": "1/1"}] + ([{"GT": "0/1"}] if len(samples) == 2 else [])))
     mp = pos[-1] + 30
     b = seq[mp]
-    recs.append((mp, b, [synth.other_base(b), synth.other_base(b, 2)], [{"GT": "1/2"}] + ([{"GT": "0/1"}] if len(samples) == 2 else [])))
+    mcall = {"GT": "1/2"}
+    if pre == "foreignPS":
+        mcall = {"GT": "1|2", "PS": "999"}  # a phased multi-allelic call of another phaser
+    elif pre == "foreignHP":
+        mcall = {"GT": "1/2", "HP": "999-1,999-2"}
+    recs.append((mp, b, [synth.other_base(b), synth.other_base(b, 2)], [mcall] + ([{"GT": "0/1"}] if len(samples) == 2 else [])))
     for p, ref, alts, calls in recs:
         fmt = ["GT"] + (["PS"] if any("PS" in c for c in calls) else []) + (["HP"] if any("HP" in c for c in calls) else [])
         vcf.add("chrA", p, ref, alts, calls, fmt=fmt)
@@ -166,6 +174,8 @@ def run_op(ctx, d, state_path, op, tag_i):
     tag = "PS" if op[0] in ("P",) or op.endswith("PS") else "HP"
     paths = {"fasta": ctx["fasta"], "vcf": state_path, "bam": ctx["bam"]}
     kw = dict(tag=tag, samples=["S1"])
+    if op in ("Ps", "Hs"):
+        kw["only_snvs"] = True
     if op.startswith("V"):
         kw["phase_inputs"] = [ctx["vin"]]
     parsed, traces, err = pw.run_phase(paths, d, out_name=f"s{tag_i}.vcf", **kw)
@@ -264,7 +274,7 @@ def judge(sc):
         nxt = []
         for path, hist in frontier:
             results = {}
-            for op in ("P", "H", "U"):
+            for op in ("P", "H", "U") + (("Ps", "Hs") if sc.get("indel") else ()):
                 y, traces, err = apply(path, op, hist)
                 h2 = tuple(hist) + (op,)
                 if err:
@@ -274,8 +284,8 @@ def judge(sc):
                 keep = os.path.join(d, f"keep_{len(seen)}_{op}.vcf")
                 os.replace(y, keep)
                 y = keep
-                if op in ("P", "H"):
-                    results[op] = (y, check_phase_output(path, y, traces, "PS" if op == "P" else "HP", h2))
+                if op in ("P", "H", "Ps", "Hs"):
+                    results[op] = (y, check_phase_output(path, y, traces, "PS" if op[0] == "P" else "HP", h2))
                 kkey = records_key(y)
                 if kkey not in seen:
                     seen[kkey] = h2
@@ -307,9 +317,11 @@ def judge(sc):
                         diff = {p: (a.get(p), b.get(p)) for p in set(a) | set(b) if a.get(p) != b.get(p)}
                         viols.append(V("rephase-differs", f"{op}(x) and {op}(unphase(x)) differ in the phase statements of the target: {diff}", tuple(hist) + (op,)))
                 # I4: a phased VCF as the only phase input reproduces its phase sets
-                stx, _ = target_statements(path)
+                stx, px = target_statements(path)
                 blocks = {}
                 for pos, sts in stx.items():
+                    if not rec_is_biallelic(px, pos):
+                        continue  # `phase` does not phase multi-allelic records
                     if sts and sts[0][2] is not None and len(sts) == 1:
                         blocks.setdefault(sts[0][1], []).append((pos, sts[0][2]))
                 blocks = {b: m for b, m in blocks.items() if len(m) >= 2}
